@@ -559,13 +559,16 @@ class Function(Value):
     def CreateConstant(
         self, constantType: Type, value: Union[int, float, bool]
     ):
-        result = self.__constants.get(value, None)
+        # 1 and 1.0 compare (and hash) equal but are different constants, so
+        # the type is part of the key
+        key = (str(constantType), type(value), value)
+        result = self.__constants.get(key, None)
         if result:
             return result
 
         cv = ConstantValue(constantType, value)
         self.RegisterValue(cv)
-        self.__constants[value] = cv
+        self.__constants[key] = cv
 
         return cv
 
